@@ -20,6 +20,8 @@
 #include <dlfcn.h>
 #include <execinfo.h>
 #include <fcntl.h>
+#include <sys/mman.h>
+#include <sys/personality.h>
 #include <sys/stat.h>
 #include <sys/types.h>
 #include <sys/wait.h>
@@ -39,7 +41,46 @@
 #include <xalanc/XSLT/XSLTInputSource.hpp>
 #include <xalanc/XSLT/XSLTResultTarget.hpp>
 
+#if defined(__SANITIZE_ADDRESS__)
+#include <sanitizer/asan_interface.h>
+#define C19_POISON(p, n) ASAN_POISON_MEMORY_REGION(p, n)
+#define C19_UNPOISON(p, n) ASAN_UNPOISON_MEMORY_REGION(p, n)
+#else
+#define C19_POISON(p, n) ((void)0)
+#define C19_UNPOISON(p, n) ((void)0)
+#endif
+
 using namespace xv;
+
+// Block addresses must not depend on the state of the C heap (pointer-keyed containers of the library would make
+// the allocation order vary from run to run): the recording manager carves its blocks out of a private arena at a
+// fixed address, never re-uses memory, keeps a red zone between blocks and (ASan build) poisons red zones and
+// returned blocks, so that overruns and use-after-free of the supplied manager's blocks are still reported.
+static char*  g_arena = nullptr;
+static size_t g_arenaSize = 0, g_arenaUsed = 0;
+static void arenaInit() {
+    g_arenaSize = (size_t)1 << 31;
+    void* want = (void*)0x600000000000ULL;
+    void* p = mmap(want, g_arenaSize, PROT_READ | PROT_WRITE, MAP_PRIVATE | MAP_ANONYMOUS | MAP_NORESERVE | MAP_FIXED_NOREPLACE, -1, 0);
+    if (p == MAP_FAILED) p = mmap(nullptr, g_arenaSize, PROT_READ | PROT_WRITE, MAP_PRIVATE | MAP_ANONYMOUS | MAP_NORESERVE, -1, 0);
+    if (p == MAP_FAILED) { perror("mmap arena"); _exit(2); }
+    g_arena = (char*)p;
+    C19_POISON(g_arena, g_arenaSize);
+}
+static void* arenaAlloc(size_t n) {
+    const size_t need = ((n ? n : 1) + 15) / 16 * 16 + 32;     // payload + red zone
+    if (g_arenaUsed + need > g_arenaSize) return nullptr;
+    char* p = g_arena + g_arenaUsed + 32;
+    g_arenaUsed += need;
+    C19_UNPOISON(p, n ? n : 1);
+    return p;
+}
+static void arenaFree(void* p, size_t n) {
+#if !defined(__SANITIZE_ADDRESS__)
+    memset(p, 0xDD, n ? n : 1);                                // make a later use of the block visible
+#endif
+    C19_POISON(p, n ? n : 1);
+}
 
 // ------------------------------------------------------------------------------- event output
 static int g_fd = 1;
@@ -141,10 +182,11 @@ public:
             }
             throw xercesc::OutOfMemoryException();
         }
-        void* p = malloc(size ? size : 1);
+        void* p = m_logged ? arenaAlloc(size) : malloc(size ? size : 1);
         if (!p) { static const char m[] = "harness: real out of memory\n"; (void)!::write(2, m, sizeof m - 1); _exit(2); }
         const long id = ++nextId;
         m_live[p] = id;
+        if (m_logged) m_size[p] = size;
         m_freed.erase(p);
         if (m_logged) noteAlloc(id);
         return p;
@@ -157,8 +199,8 @@ public:
             const long id = it->second;
             m_live.erase(it);
             m_freed[p] = id;
-            if (m_logged) noteFree(id);
-            free(p);
+            if (m_logged) { noteFree(id); arenaFree(p, m_size[p]); }
+            else free(p);
             return;
         }
         auto jt = m_freed.find(p);                // not live: a second free of a block, or a foreign pointer
@@ -175,7 +217,7 @@ public:
     size_t outstanding() const { return m_live.size(); }
     size_t discard() {                            // the documented recovery model: drop everything still outstanding
         const size_t n = m_live.size();
-        for (auto& kv : m_live) free(kv.first);
+        for (auto& kv : m_live) { if (m_logged) arenaFree(kv.first, m_size[kv.first]); else free(kv.first); }
         m_live.clear(); m_freed.clear();
         return n;
     }
@@ -183,6 +225,7 @@ public:
 private:
     bool m_logged;
     std::unordered_map<void*, long> m_live, m_freed;
+    std::unordered_map<void*, size_t> m_size;
 };
 
 // ------------------------------------------------------------------- terminate / fatal signals
@@ -400,7 +443,15 @@ static void runChild(const J& c, bool parentInited, const char* flavour) {
 // ----------------------------------------------------------------------------------- the parent
 int main(int argc, char** argv) {
     if (argc < 6) { fprintf(stderr, "usage: %s cases.ndjson outdir jobs inited|raw datadir\n", argv[0]); return 2; }
+    {   // address-space randomisation off (re-exec once): pointer-keyed containers must iterate the same way in every run
+        const int pers = personality(0xffffffff);
+        if (pers != -1 && !(pers & ADDR_NO_RANDOMIZE) && !getenv("XV_C19_REEXEC")) {
+            setenv("XV_C19_REEXEC", "1", 1);
+            if (personality(pers | ADDR_NO_RANDOMIZE) != -1) execv("/proc/self/exe", argv);
+        }
+    }
     g_data = argv[5];
+    arenaInit();
     const std::string outdir = argv[2];
     const int jobs = std::max(1, atoi(argv[3]));
     const bool inited = std::string(argv[4]) == "inited";
@@ -418,45 +469,61 @@ int main(int argc, char** argv) {
     RecordingManager initMgr(false);
     if (inited) XalanTransformer::initialize(initMgr);
 
-    std::map<pid_t, size_t> running;
+    // The scheduling loop performs no heap operation between forks, so that every child starts from the same heap
+    // state whatever the order in which earlier children finished (part of keeping the sweep reproducible).
+    static pid_t  pids[256];
+    static size_t idx[256];
+    static char   errbuf[1600], evbuf[4200];
+    const int maxJobs = std::min(jobs, 256);
+    int nrunning = 0;
     size_t next = 0, finished = 0;
+    const char* od = outdir.c_str();
     auto reap = [&]() {
         int status = 0;
         pid_t p = wait(&status);
         if (p <= 0) return;
-        auto it = running.find(p);
-        if (it == running.end()) return;
-        const size_t n = it->second; running.erase(it); ++finished;
-        const std::string path = outdir + "/" + std::to_string(n) + ".nd";
-        // first lines of the child's stderr (sanitizer reports)
-        std::string err;
-        { std::ifstream f(outdir + "/" + std::to_string(n) + ".err"); std::string l; while (std::getline(f, l) && err.size() < 1500) { err += l; err += '\n'; } }
-        int fd = open(path.c_str(), O_WRONLY | O_APPEND);
-        if (fd >= 0) {
-            std::string e = "{\"e\":\"Exit\",\"code\":" + std::to_string(WIFEXITED(status) ? WEXITSTATUS(status) : -1) +
-                            ",\"signal\":" + std::to_string(WIFSIGNALED(status) ? WTERMSIG(status) : 0) + ",\"stderr\":" + jstr(err) + "}\n";
-            (void)!::write(fd, e.data(), e.size());
-            close(fd);
+        int slot = -1;
+        for (int i = 0; i < nrunning; ++i) if (pids[i] == p) { slot = i; break; }
+        if (slot < 0) return;
+        const size_t n = idx[slot];
+        pids[slot] = pids[nrunning - 1]; idx[slot] = idx[nrunning - 1]; --nrunning; ++finished;
+        char path[600], epath[600];
+        snprintf(path, sizeof path, "%s/%zu.nd", od, n);
+        snprintf(epath, sizeof epath, "%s/%zu.err", od, n);
+        // the beginning of the child's stderr (sanitizer reports), JSON-escaped
+        size_t el = 0;
+        { int efd = open(epath, O_RDONLY); if (efd >= 0) { ssize_t r = read(efd, errbuf, 1500); if (r > 0) el = (size_t)r; close(efd); } }
+        size_t o = (size_t)snprintf(evbuf, sizeof evbuf, "{\"e\":\"Exit\",\"code\":%d,\"signal\":%d,\"stderr\":\"",
+                                    WIFEXITED(status) ? WEXITSTATUS(status) : -1, WIFSIGNALED(status) ? WTERMSIG(status) : 0);
+        for (size_t i = 0; i < el && o + 8 < sizeof evbuf - 8; ++i) {
+            unsigned char ch = (unsigned char)errbuf[i];
+            if (ch == '"' || ch == '\\') { evbuf[o++] = '\\'; evbuf[o++] = (char)ch; }
+            else if (ch == '\n') { evbuf[o++] = '\\'; evbuf[o++] = 'n'; }
+            else if (ch < 0x20 || ch >= 0x7f) evbuf[o++] = '?';
+            else evbuf[o++] = (char)ch;
         }
-        unlink((outdir + "/" + std::to_string(n) + ".err").c_str());
+        evbuf[o++] = '"'; evbuf[o++] = '}'; evbuf[o++] = '\n';
+        int fd = open(path, O_WRONLY | O_APPEND);
+        if (fd >= 0) { (void)!::write(fd, evbuf, o); close(fd); }
+        unlink(epath);
     };
-    while (next < cases.size() || !running.empty()) {
-        while (next < cases.size() && (int)running.size() < jobs) {
+    while (next < cases.size() || nrunning > 0) {
+        while (next < cases.size() && nrunning < maxJobs) {
             const size_t n = next++;
-            const std::string path = outdir + "/" + std::to_string(n) + ".nd";
-            const std::string epath = outdir + "/" + std::to_string(n) + ".err";
-            fflush(nullptr);
+            char path[600], epath[600];
+            snprintf(path, sizeof path, "%s/%zu.nd", od, n);
+            snprintf(epath, sizeof epath, "%s/%zu.err", od, n);
             pid_t p = fork();
             if (p < 0) { perror("fork"); return 2; }
             if (p == 0) {
-                g_fd = open(path.c_str(), O_WRONLY | O_CREAT | O_TRUNC | O_APPEND, 0644);
-                int efd = open(epath.c_str(), O_WRONLY | O_CREAT | O_TRUNC, 0644);
+                g_fd = open(path, O_WRONLY | O_CREAT | O_TRUNC | O_APPEND, 0644);
+                int efd = open(epath, O_WRONLY | O_CREAT | O_TRUNC, 0644);
                 if (g_fd < 0 || efd < 0) _exit(2);
                 dup2(efd, 2);
                 runChild(cases[n], inited, flavour);
                 _exit(0);
             }
-            running[p] = n;
+            pids[nrunning] = p; idx[nrunning] = n; ++nrunning;
         }
         reap();
     }
